@@ -713,6 +713,11 @@ class VcfReader:
                 for call in record.samples.values():
                     GL = call.get("GL", None)
                     PL = call.get("PL", None)
+                    # A missing value ('.') is reported by pysam as (None,): no likelihoods
+                    if GL is not None and all(gl is None for gl in GL):
+                        GL = None
+                    if PL is not None and all(pl is None for pl in PL):
+                        PL = None
                     # Prefer GLs (floats) over PLs (ints) if both should be present
                     if GL is not None:
                         genotype_likelihoods.append(GenotypeLikelihoods(GL))
